@@ -77,12 +77,15 @@ Definition infer (temp : T) (cpl : list (nat * list T)) (K : nat) (S : nat -> na
   (X : nat -> nat -> T) (i : nat) : option (nat -> T) := infer_row temp cpl K S (X i).
 
 (* douglas.py::_init_params   feature_mask None -> every feature; else len(mask) must be d (ValueError ->
-   None) and cut_points_list_ = [(i, normal(n_cuts)) for i in range(d) if feature_mask[i]].
+   None), cut_points_list_ = [(i, normal(n_cuts)) for i in range(d) if feature_mask[i]] and a mask that
+   selects no feature is rejected (ValueError -> None).
    The normal draws are an oracle: draw j = the j-th vector drawn. *)
 Definition used_features (d : nat) (mask : option (list bool)) : option (list nat) :=
   match mask with
   | None => Some (seq 0 d)
-  | Some m => if length m =? d then Some (filter (fun i => nth i m false) (seq 0 d)) else None
+  | Some m => if length m =? d
+              then match filter (fun i => nth i m false) (seq 0 d) with [] => None | u => Some u end
+              else None
   end.
 Definition init_cuts (d : nat) (mask : option (list bool)) (draw : nat -> list T) : option (list (nat * list T)) :=
   option_map (fun u => combine u (map draw (seq 0 (length u)))) (used_features d mask).
